@@ -205,6 +205,12 @@ fn parse_squares(game: &Game, mv: &str) -> Result<(Square, Square), ParseError> 
 }
 
 pub fn parse_move(game: &Game, mv: &str) -> Result<Move, ParseError> {
+    // Check and checkmate suffixes carry no information needed to identify the move, and
+    // castling moves can have them too
+    let mv = mv
+        .trim_end_matches(san::CHECK)
+        .trim_end_matches(san::CHECKMATE);
+
     if mv == san::KINGSIDE_CASTLE {
         return Ok(game.moves().expect_matching(
             squares::king_start(game.player),
@@ -220,10 +226,6 @@ pub fn parse_move(game: &Game, mv: &str) -> Result<Move, ParseError> {
             None,
         ));
     }
-
-    let mv = mv
-        .trim_end_matches(san::CHECK)
-        .trim_end_matches(san::CHECKMATE);
 
     let (mv, promotion) = if mv.contains(san::PROMOTION) {
         let (rest, promotion_piece) = mv
